@@ -627,6 +627,11 @@ pub fn run(prop: u8, tier: &str) -> Report {
             g.sink.extend(v);
             rep.set("call_ladder_calls", json!(n));
         }
+        {
+            let (n, v) = crate::checks::longlists::compact_complements(prop, tier);
+            g.sink.extend(v);
+            rep.set("sphere_minus_one_or_two_cells_sets", json!(n));
+        }
         if prop == 8 {
             let (n, v) = crate::checks::longlists::compact_cardinality(tier);
             g.sink.extend(v);
